@@ -1,5 +1,5 @@
 (* Proofs/C14Held.v — the Gram matrix of a sparse / Tucker holder of element type B, formed after the conversion to V, is gram_spec of the
-   converted denotation (the behaviour fixes/C14-F4.diff and fixes/C14-F5.diff give sptensor.nvecs / ttensor.nvecs). *)
+   converted denotation (sptensor.nvecs / ttensor.nvecs since /repo 6aef7c8 / 4b7dc0e: findings C14-F4 / C14-F5 repaired). *)
 From Coq Require Import List Arith Lia Bool Ring ZArith.
 From PV Require Import Base.Index Base.Sum Np.Array Model.Sparse Model.Repr Model.C01Conv Model.C01Coo Model.C14Nvecs Model.C14Gram
   Model.C14Unfold Model.C14SpPath Model.C14Held Proofs.C14Sums Proofs.C14Split Proofs.C14GramSp Proofs.C14GramT Proofs.C14Unfold
